@@ -40,6 +40,16 @@ def _cheap_minimise(ctx):
     """Replaying a history costs real time (its ticks, and 5 s for every call that hangs): a history whose failure is a
     timeout or hang is reported as it is, every other one is minimised with a small budget."""
     minimise0 = ctx._minimise
+    mismatch0 = ctx._mismatch
+    memo = {}
+
+    def mismatch(area, driver, name, hist, canon, extra_env=None):
+        key = (area, tuple(hist))
+        if key not in memo:
+            memo[key] = mismatch0(area, driver, name, hist, canon, extra_env)
+        return memo[key]
+
+    ctx._mismatch = mismatch
 
     def minimise(area, driver, name, hist, canon, extra_env=None, budget=80):
         if area != "burst":
@@ -82,8 +92,9 @@ def run(ctx):
     ]
     ctx.assumptions += [
         "capacities are non-negative and below 2^62 (Go int arithmetic does not overflow); the model uses Nat",
-        "SetCap is executed by the model and compared in the correspondence run, but the theorems are about runs "
-        "without SetCap (DESIGN Appendix B: SetCap mid-period is outside the stated quantifier)",
+        "SetCap is a step of RL.Step (new cap >= 0): every theorem holds with SetCap calls anywhere in the run, except "
+        "granted_le_cap / granted_le_min_cap_of_chain, which assume that SetCap has not been called so far (DESIGN "
+        "Appendix B: SetCap mid-period is outside the stated quantifier); SetCap is generated and compared in both ties",
         "`exceeds the cap` is the limiter's own cap: a request above an ancestor's cap but within its own waits until "
         "Close (model and code agree; not alarmed on)",
         "close_returns is deadlock-freedom plus a 3-step path to the return; that the Go scheduler and `select` "
